@@ -355,3 +355,84 @@ def r7(ctx: RuleCtx) -> None:
             raise Undecided(f'{q}: cannot trace the returned value {short(ret)} to version_compare_many')
     if not n:
         raise Undecided(f'{STRING}: no method records the condition range (written differently)')
+    # the recorded range must be exact: version_check_to_range only over-approximates a `!=` constraint, so on a path on
+    # which a constraint was seen to start with '!' the condition range must not be recorded (always() would report a
+    # constant verdict for a condition that is not constant).  Paths are enumerated; boolean flags are followed by
+    # constant propagation along the path.
+    from ..paths import enumerate_paths
+    for q, fn in roles.funcs.items():
+        stores = [st for st in walk_no_nested(fn, include_root=False) if isinstance(st, ast.Assign) and any((attr_chain(t) or '').endswith('.' + COND) for t in st.targets)
+                  and not (isinstance(st.value, ast.Constant) and st.value.value is None)]
+        if not stores:
+            continue
+
+        def neq_test(e: ast.AST) -> T.Optional[bool]:
+            """True: `<constraint>[.strip()].startswith('!')` or any(<that> for ..); None: mentions such a test in another shape."""
+            def base(x: ast.AST) -> bool:
+                return isinstance(x, ast.Call) and isinstance(x.func, ast.Attribute) and x.func.attr == 'startswith' and len(x.args) == 1 \
+                    and isinstance(x.args[0], ast.Constant) and x.args[0].value in ('!', '!=')
+            if base(e):
+                return True
+            if isinstance(e, ast.Call) and isinstance(e.func, ast.Name) and e.func.id == 'any' and len(e.args) == 1 \
+                    and isinstance(e.args[0], (ast.GeneratorExp, ast.ListComp)) and base(e.args[0].elt) and not any(g.ifs for g in e.args[0].generators):
+                return True
+            if isinstance(e, ast.Call) and isinstance(e.func, ast.Attribute) and attr_chain(e.func.value) in ('self', q.split('.')[0]):
+                # a predicate helper of the class (E1): it is such a test if it answers True exactly on the paths that saw one
+                helper = next((f for k, f in roles.funcs.items() if k == f'{q.split(".")[0]}.{e.func.attr}'), None)
+                if helper is not None:
+                    verdicts = set()
+                    for hp in enumerate_paths(helper.body, unroll=1):
+                        saw = any(ev.kind == 'cond' and ev.node is not None and base(ev.node) and ev.val for ev in hp.events)
+                        if hp.outcome != 'return' or not (isinstance(hp.value, ast.Constant) and isinstance(hp.value.value, bool)):
+                            return None if any(base(x) for x in ast.walk(helper)) else False
+                        verdicts.add((saw, hp.value.value))
+                    if verdicts and all(a == b for a, b in verdicts) and any(a for a, _ in verdicts):
+                        return True
+                    return None if any(base(x) for x in ast.walk(helper)) else False
+            return None if any(base(x) for x in ast.walk(e)) else False
+        tests = 0
+        stored_paths = 0
+        for path in enumerate_paths(fn.body, unroll=1):
+            consts: T.Dict[str, bool] = {}
+            flags: T.Set[str] = set()
+            feasible, seen_neq, bad = True, False, None
+            for ev in path.events:
+                if ev.node is None:
+                    continue
+                if ev.kind == 'cond':
+                    if isinstance(ev.node, ast.Name) and ev.node.id in consts and consts[ev.node.id] != ev.val:
+                        feasible = False
+                        break
+                    k = True if isinstance(ev.node, ast.Name) and ev.node.id in flags else neq_test(ev.node)
+                    if k is None:
+                        raise Undecided(f'{q}: cannot read the test {short(ev.node)} for `!=` constraints')
+                    if k:
+                        tests += 1
+                        seen_neq = seen_neq or bool(ev.val)
+                elif ev.kind == 'stmt' and isinstance(ev.node, ast.Assign):
+                    for t in ev.node.targets:
+                        if isinstance(t, ast.Name):
+                            flags.discard(t.id)
+                            if isinstance(ev.node.value, ast.Constant) and isinstance(ev.node.value.value, bool):
+                                consts[t.id] = ev.node.value.value
+                            else:
+                                consts.pop(t.id, None)
+                                kk = neq_test(ev.node.value)
+                                if kk is None:
+                                    raise Undecided(f'{q}: cannot read {short(ev.node)} as a test for `!=` constraints')
+                                if kk:
+                                    flags.add(t.id)          # the flag IS the test (C3: condition named first)
+                    if any(ev.node is x for x in stores):
+                        stored_paths += 1
+                        if seen_neq:
+                            bad = ev.node
+            if feasible and bad is not None:
+                ctx.violation(mod, q, 'condition range recorded for a != constraint', f'`{short(bad)}` is reached on the path `{path.describe()[:200]}` on which a constraint was seen to '
+                              f'start with `!`: the range of a `!=` check is only a superset, so Range.always() would call the condition constant when it is not', bad)
+                break
+        else:
+            if not tests:
+                raise Undecided(f'{q}: no test for `!=` constraints was found before the condition range is recorded (written differently)')
+            if not stored_paths:
+                raise Undecided(f'{q}: the condition range is never recorded on an enumerated path')
+            ctx.ok(f'{q}: the condition range is not recorded on a path that saw a `!=` constraint')
